@@ -224,8 +224,9 @@ def design_driver(m, i, nshards, tier):
             codes = {v: 10 * (base.index(v) + 1) for v in base}
             df = pd.DataFrame({"y": rng.normal(size=nrow), "g": pd.Series(vals, dtype="str"),
                                "k": np.array([codes[v] for v in vals], dtype=int),
+                               "kk": np.array([base.index(v) + 1 for v in vals], dtype=int),
                                "co": pd.Categorical(vals, categories=sorted(base, reverse=True), ordered=True)})
-            for col, levels in (("g", order), ("k", [codes[v] for v in order]), ("co", order)):
+            for col, levels in (("g", order), ("k", [codes[v] for v in order]), ("co", order), ("kk", [base.index(v) + 1 for v in order])):
                 ns = {"lv": levels}
                 rows = np.asarray(df[col].tolist(), dtype=object)
                 opts = [None, levels[0], levels[-1], levels[len(levels) // 2]]
@@ -283,7 +284,7 @@ def design_driver(m, i, nshards, tier):
                                 m.violation("options-honoured", f"{text} with lv={levels}: labels {term.labels} vs {labels}", case=case, key="labels:" + fn)
                 # levels= that do not cover the data: refused, or - if accepted - every column is still the indicator
                 # of the level in its label (a value outside levels= is never counted as one of the listed levels)
-                extra = 990 if col == "k" else "zz-extra"
+                extra = 990 if col in ("k", "kk") else "zz-extra"
                 for sub in (levels[:-1], levels[1:], levels + [extra], [extra] + levels):
                     if not sub:
                         continue
